@@ -14,5 +14,5 @@ CONSTANTS
   Defect_LatePool = FALSE
   Defect_ReconnectInline = FALSE
   Mut = "none"
-INVARIANTS TypeOK NoPanic AllClosedAfterClose QueryAfterClose CancelAfterPools
-PROPERTIES CloseReturns StopReturns NobodyStuck GoroutinesExit
+INVARIANTS TypeOK ListenersTracked NoQueueAfterStop NoPanic AllClosedAfterClose QueryAfterClose CancelAfterPools
+PROPERTIES CloseReturns StopReturns NobodyStuck RequesterAnswered GoroutinesExit
